@@ -481,6 +481,8 @@ class SpectralDensity(DFunction, UnitsManaged):
         if t1 == t2:
             
             self.data += other.data
+            # interpolation splines, if any, belong to the earlier data
+            self._splines_initialized = False
             self.lamb += other.lamb  # reorganization energy is additive
             for i in range(2):
                 self.lim_omega[i] += other.lim_omega[i] 
@@ -517,6 +519,8 @@ class SpectralDensity(DFunction, UnitsManaged):
         if t1 == t2:
             
             self.data += ocor.data
+            # interpolation splines, if any, belong to the earlier data
+            self._splines_initialized = False
             self.lamb += ocor.lamb  # reorganization energy is additive
             #if ocor.cutoff_time > self.cutoff_time: 
             #    self.cutoff_time = ocor.cutoff_time  
